@@ -4,7 +4,7 @@ from __future__ import annotations
 import ast as _ast
 
 from ..common import CM_ANCHORS, all_conds, apaths, conds_at, nshow, outer_field, paths, unclamped
-from ..expr import C, SELF, canon, norm, posroot, rowform, show, strip_epochs, walk
+from ..expr import C, SELF, bounded_step, canon, norm, posroot, rowform, show, strip_epochs, walk
 from ..model import AnalysisError
 
 EXPL = ("add_alt, remove_alt and check_alt must address the same cell per row: the index expression of every access to the "
@@ -24,8 +24,9 @@ WIDTH = ("f", SELF, "_CountMinSketch__width", 0)
 
 
 def rf(e):
-    """canonical row form: positional indexing resolved to the underlying per-row expression"""
-    return canon(rowform(e))
+    """canonical row form: positional indexing resolved to the underlying per-row expression (and a step cut short at a bound
+    written as the saturating update it is)"""
+    return canon(bounded_step(canon(rowform(e))))
 
 
 def leaves(v):
